@@ -210,7 +210,7 @@ func c06(args []string) int {
 		// snapshots and compactions taken right after litestream was restarted (in-memory positions gone, WAL still
 		// the generation the newest level-0 file came from)
 		{Name: "seeded/L1-L2/after-restart", Cfg: l2, Alphabet: strings.Fields("S SW SNAP FSNAP CMP:1 W1"), Depth: d(2, 3),
-			Seeds: [][]string{strings.Fields("W3 SW W1 SW CL START"), strings.Fields("W3 SW W1 S KILL NEW"), strings.Fields("W3 SW W1 SW KILL NEW")}},
+			Seeds: [][]string{strings.Fields("W3 SW W1 SW CL START"), strings.Fields("W3 SW W1 S KILL NEW"), strings.Fields("W3 SW W1 SW KILL NEW"), strings.Fields("W3 SW LC:TRUNCATE W1 SW KILL NEW")}},
 		{Name: "exact/L1", Cfg: l1, Alphabet: a1, Depth: d(4, 6)},
 		{Name: "exact/L1-L2", Cfg: l2, Alphabet: a2, Depth: d(4, 6)},
 		{Name: "seeded/L1-L2", Cfg: l2, Alphabet: a2, Depth: d(3, 4), Seeds: seeds},
